@@ -245,3 +245,25 @@ Definition abrupt_model (k : tkind) (first : cses) : nat * nat * bool :=
    count_ev (fun e => match e with FinCb => true | _ => false end) (rr_trace r),
    rr_handler_ended r).
 
+
+(* ---------- a peer that vanishes while Authenticate is deciding (C14) ----------
+   the peer goes through the handshake up to presenting plain credentials and closes the connection while the
+   server's Authenticate callback has not answered yet; the callback then answers with [verdict].  Model B's run
+   over [new; those credentials; end of stream]: Authenticate is asked once, and for every verdict but a known
+   role no callback announces a session.  (For a known role what happens next depends on whether the transport
+   still accepts the established envelope - a socket does, the in-process transport does not - so only the
+   pairing of the callbacks is compared there.) *)
+Definition vanish_conf (k : tkind) : sconf :=
+  {| sc_comp := ["none"]; sc_enc := ["none"]; sc_schemes := ["plain"]; sc_kind := k; sc_tls_ok := false; sc_sid := "SID" |}.
+Definition vanish_script : list cin :=
+  [CSes {| cs_id := ""; cs_state := SNew; cs_enc := ""; cs_comp := ""; cs_scheme := ""; cs_cred := None; cs_from := 0 |};
+   CSes {| cs_id := "SID"; cs_state := SAuthenticating; cs_enc := ""; cs_comp := ""; cs_scheme := "plain";
+           cs_cred := Some 1; cs_from := 1 |};
+   CEof].
+Definition vanish_model (k : tkind) (verdict : ares) : nat * nat * bool * nat :=
+  let r := handle_channel s_repaired (vanish_conf k) {| o_auth := fun _ _ _ _ => verdict; o_reg := fun f => RNode (100 + f) |}
+             vanish_script in
+  (count_ev (fun e => match e with EstCb => true | _ => false end) (rr_trace r),
+   count_ev (fun e => match e with FinCb => true | _ => false end) (rr_trace r),
+   rr_handler_ended r,
+   count_ev (fun e => match e with AuthCall _ _ _ _ => true | _ => false end) (rr_trace r)).
